@@ -1,5 +1,6 @@
 import InfluxQL.Lemmas.Neutral
 import InfluxQL.Lemmas.Query
+import InfluxQL.Lemmas.PMonad
 import InfluxQL.Model.ParserCore
 /-!
 # C16 — statement separation, whitespace and comments do not change meaning
@@ -190,6 +191,60 @@ theorem ws_subst_raw (pre w1 w2 post : List Char)
         exact absurd this (by decide)
   exact ws_subst_text _ _ (foldCR pre) (foldCR w1) (foldCR w2) (foldCR post) (split w1) (split w2)
     (foldCR_rawWs w1 hw1.1 hw1.2) (foldCR_rawWs w2 hw2.1 hw2.2) (notWsHead_foldCR post hpost) hb
+
+/-! ## `sigTokens` is what `ScanIgnoreWhitespace` delivers -/
+
+theorem substTok_nil (lx : Lexeme) : substTok [] lx = lx := by
+  unfold substTok
+  split
+  · split
+    · rfl
+    · rfl
+  · rfl
+
+theorem scanIWLoop_sigTokens (fuel : Nat) (s : PState) (hn : s.n = 0) (hp : s.params = [])
+    (hf : s.r.rest.length < fuel) :
+    ∃ lx s', (scanIWLoop fuel).run s = .ok (lx, s') ∧ s'.n = 0 ∧ s'.params = [] ∧
+      sigTokens s.r = if lx.tok = .EOF then [lx.sig] else lx.sig :: sigTokens s'.r := by
+  induction fuel generalizing s with
+  | zero => omega
+  | succ fuel ih =>
+    have hraw : rawNext false s = ((scan s.r).1, { s with r := (scan s.r).2, buf := ((scan s.r).1 :: s.buf).take 3 }) := by
+      unfold rawNext
+      have : ¬ s.n > 0 := by omega
+      simp only [this, if_false, Bool.false_eq_true]
+    have hsub : substTok s.params (rawNext false s).1 = (scan s.r).1 := by
+      rw [hp, substTok_nil, hraw]
+    by_cases hw : (scan s.r).1.tok = .WS ∨ (scan s.r).1.tok = .COMMENT
+    · rw [scanIWLoop_run_skip fuel s (by rw [hsub]; exact hw), hraw]
+      have hne : (scan s.r).1.tok ≠ .EOF := by
+        rcases hw with h | h <;> rw [h] <;> decide
+      have hne' : s.r.rest ≠ [] := fun hnil => hne (scan_at_end s.r hnil)
+      have hprog := scan_progress s.r hne'
+      obtain ⟨lx, s', hrun, hn', hp', hsig⟩ := ih
+        { s with r := (scan s.r).2, buf := ((scan s.r).1 :: s.buf).take 3 } hn hp (by simp only; omega)
+      refine ⟨lx, s', hrun, hn', hp', ?_⟩
+      rw [sigTokens_step s.r]
+      simp only [hne, if_false, hw, if_true]
+      exact hsig
+    · have h1 : (scan s.r).1.tok ≠ .WS := fun e => hw (Or.inl e)
+      have h2 : (scan s.r).1.tok ≠ .COMMENT := fun e => hw (Or.inr e)
+      rw [scanIWLoop_run_sig fuel s (by rw [hsub]; exact h1) (by rw [hsub]; exact h2), pscan_run, hsub, hraw]
+      refine ⟨_, _, rfl, hn, hp, ?_⟩
+      rw [sigTokens_step s.r]
+      simp only [hw, if_false]
+
+/-- **C16 (bridge to the parser).** With nothing pushed back and no parameters,
+`Parser.ScanIgnoreWhitespace` returns exactly the first significant token of the cursor (kind and
+literal) and leaves the cursor where the remaining significant tokens are the rest of the list.
+Hence everything the parser obtains through `ScanIgnoreWhitespace` is a function of `sigTokens`,
+to which `ws_subst_tokens` and `comment_insert_tokens` apply. -/
+theorem scanIW_delivers_sigTokens (s : PState) (hn : s.n = 0) (hp : s.params = []) :
+    ∃ lx s', scanIW.run s = .ok (lx, s') ∧ s'.n = 0 ∧ s'.params = [] ∧
+      sigTokens s.r = if lx.tok = .EOF then [lx.sig] else lx.sig :: sigTokens s'.r := by
+  unfold scanIW
+  rw [P.run_bind, P.run_get]
+  exact scanIWLoop_sigTokens _ s hn hp (by omega)
 
 /-! ## `ParseQuery`: statement separation
 
